@@ -205,18 +205,37 @@ func main() {
 	// a failure need not repeat, but nothing in a correct run can produce it even once.
 	sort.Slice(fails, func(i, j int) bool { return fails[i].c.ID < fails[j].c.ID })
 	seenSig := map[string]int{}
-	for _, f := range fails {
-		stable := true
-		if conclusiveOnce(f.r.Findings) {
-			// reported as observed
-		} else if len(pr.Violations) < 40 {
-			for k := 0; k < 5 && stable; k++ {
-				r2 := runCase(f.c)
-				if !sameSigs(r2.Findings, f.r.Findings) {
-					stable = false
-				}
-			}
+	// the re-runs of the first 40 failing cases go in parallel (five at once per case)
+	stableOf := make([]bool, len(fails))
+	sem := make(chan struct{}, *jobs)
+	var gw sync.WaitGroup
+	for i, f := range fails {
+		stableOf[i] = true
+		if conclusiveOnce(f.r.Findings) || i >= 40 {
+			continue // reported as observed
 		}
+		var unstable atomic.Bool
+		for k := 0; k < 5; k++ {
+			gw.Add(1)
+			go func(i int, f failed) {
+				defer gw.Done()
+				sem <- struct{}{}
+				defer func() { <-sem }()
+				if unstable.Load() {
+					return
+				}
+				if r2 := runCase(f.c); !sameSigs(r2.Findings, f.r.Findings) {
+					unstable.Store(true)
+					mu.Lock()
+					stableOf[i] = false
+					mu.Unlock()
+				}
+			}(i, f)
+		}
+	}
+	gw.Wait()
+	for i, f := range fails {
+		stable := stableOf[i]
 		if !stable {
 			pr.Errors = append(pr.Errors, fmt.Sprintf("case %s failed but did not reproduce identically on re-run; not reported as a violation: %s", f.c.ID, f.r.Findings[0].Msg))
 			pr.Exhaustive = false
